@@ -403,3 +403,7 @@ LEVEL_NOTE = ('Trusted: Lean kernel (axioms propext/Quot.sound/Classical.choice 
               '"total" on a monotonic observable counter is recorded as 0 (modelled, excluded from the value clauses). View '
               'attribute filters are ignored on the observable path (D22, belongs to C08/C19). FP rounding and int64 overflow are not generated.')
 DESIGN_REF = 'DESIGN.md section 4, C17; Appendix D'
+for _m in SUBS:
+    RULE = RULE + ' | ' + getattr(_m, 'RULE', '')
+    LEVEL_TEXT = LEVEL_TEXT + getattr(_m, 'LEVEL_TEXT_ADD', '')
+    LEVEL_NOTE = LEVEL_NOTE + getattr(_m, 'LEVEL_NOTE_ADD', '')
